@@ -18,7 +18,13 @@ RULE = ("Base58: every payload length 0..82 with every leading-zero run class (n
         "WIF: boundary and random secrets x compressed x network; converse direction (decode then encode) on valid, "
         "non-canonical (non-zero / over-long padding, foreign version byte, odd payload length) and random texts; "
         "RedeemScript/WitnessScript address entry points and ScriptPubKey.parse(bytes).address on the five templates, "
-        "near misses and malformed streams.")
+        "near misses and malformed streams; every text class additionally through text_iff (all decoders vs independent "
+        "reference decoders in both directions, rejection only by ValueError/RuntimeError, no None result): one "
+        "constructed valid-checksum text per rejecting branch (unknown / swapped human-readable part, every Base58 "
+        "first-character class, hash and program lengths around 20/32 per witness version, WIF payload lengths "
+        "0..65, last byte other than 01, foreign prefix bytes, secrets 0 / N / N+1 / 2^256-1), unknown networks and "
+        "out-of-range secrets at the encoders, scriptPubKeys read from the middle of a stream with the length in every "
+        "compact-size form, P2TR from a curve point, non-bytes constructor arguments.")
 TRUSTED = ["hashlib (sha256) — hash256 is a universally quantified function with 32-byte output in the theorems",
            "text is modelled as a list of code points; harness inputs are latin-1 strings (one code point per byte)",
            "PrivateKey.__init__ computes secret*G, which is not modelled (only its range check is)"]
@@ -41,7 +47,38 @@ def netidx(name):
 
 def i_decode_bech32(s):
     net, v, h = bech32.decode_bech32(T(s))
-    return [netidx(net), v, h]
+    return [NETS.index(net) if net in NETS else -1, v, h]      # a network that is no network is a VALUE, not an error
+
+
+# A decoder REJECTS a text by raising ValueError / RuntimeError (the classes the library raises on purpose).  Anything
+# else that comes out of a rejecting branch — UnboundLocalError / AttributeError / TypeError further down because the
+# branch did not raise, a None return — is not a rejection: the adapters below turn it into a VALUE, so that it
+# disagrees with the model's error, and the predicates report it.  IndexError is what the unchanged library raises
+# on the four degenerate texts below (address[0] of '', data[0] of an empty data part) and only there.
+CLEAN = (ValueError, RuntimeError)
+DEGENERATE = ("", "bc1", "tb1", "bcrt1")
+
+
+def _is_timeout(e):
+    return type(e).__name__ == "ImplTimeout"
+
+
+def _guard(f):
+    def g(sb, *rest):
+        try:
+            r = f(sb, *rest)
+        except CLEAN:
+            raise
+        except Exception as e:  # noqa
+            if _is_timeout(e) or (isinstance(e, IndexError) and T(sb) in DEGENERATE):
+                raise
+            return [b"crash-instead-of-rejection", type(e).__name__.encode()]
+        return [b"returned-None"] if r is None else r
+    return g
+
+
+def _commands(spk):
+    return [b"returned-None"] if spk is None else spk.commands
 
 
 def _spk(t, h):
@@ -83,27 +120,27 @@ def i_wif_parse(s):
 IMPL = {
     "encode_base58": lambda b: helper.encode_base58(b),
     "encode_base58_checksum": lambda b: helper.encode_base58_checksum(b),
-    "raw_decode_base58": lambda s: helper.raw_decode_base58(T(s)),
-    "decode_base58": lambda s: helper.decode_base58(T(s)),
+    "raw_decode_base58": _guard(lambda s: helper.raw_decode_base58(T(s))),
+    "decode_base58": _guard(lambda s: helper.decode_base58(T(s))),
     "polymod": lambda v: bech32.bech32_polymod(v),
     "hrp_expand": lambda s: bech32.bech32_hrp_expand(T(s)),
     "create_checksum": lambda m, hrp, d: (bech32.bech32m_create_checksum if m else bech32.bech32_create_checksum)(T(hrp), d),
     "verify_checksum": lambda m, hrp, d: (bech32.bech32m_verify_checksum if m else bech32.bech32_verify_checksum)(T(hrp), d),
     "group_32": lambda s: bech32.group_32(s),
     "encode_bech32_checksum": lambda s, net: bech32.encode_bech32_checksum(s, NETS[net]),
-    "decode_bech32": i_decode_bech32,
+    "decode_bech32": _guard(i_decode_bech32),
     "address": i_address,
-    "address_to_script_pubkey": lambda s: script.address_to_script_pubkey(T(s)).commands,
-    "to_address": lambda s: tx.TxOut.to_address(T(s), 1).script_pubkey.commands,
+    "address_to_script_pubkey": _guard(lambda s: _commands(script.address_to_script_pubkey(T(s)))),
+    "to_address": _guard(lambda s: _commands(tx.TxOut.to_address(T(s), 1).script_pubkey)),
     "wif_encode": i_wif_encode,
-    "wif_parse": i_wif_parse,
+    "wif_parse": _guard(i_wif_parse),
     # other entry points (Model/AddressExt.v)
     "redeem_address": lambda cmds, net: script.RedeemScript(list(cmds)).address(NETS[net]),
     "segwit_p2sh_address": lambda cmds, net: _segwit_spk(cmds).p2sh_address(NETS[net]),
     "witness_address": lambda cmds, net: script.WitnessScript(list(cmds)).address(NETS[net]),
     "witness_p2sh_address": lambda cmds, net: script.WitnessScript(list(cmds)).p2sh_address(NETS[net]),
     "spk_bytes_address": lambda s, net: _quiet(script.ScriptPubKey.parse, BytesIO(s)).address(NETS[net]),
-    "address_to_spk_bytes": lambda a: script.address_to_script_pubkey(T(a)).serialize(),
+    "address_to_spk_bytes": _guard(lambda a: script.address_to_script_pubkey(T(a)).serialize()),
 }
 
 # ---------------------------------------------------------------- independent references
@@ -172,6 +209,12 @@ def ref_segwit(hrp, ver, prog, const=None):
     pm = ref_polymod(ref_hrp(hrp) + data + [0] * 6) ^ const
     chk = [(pm >> 5 * (5 - i)) & 31 for i in range(6)]
     return hrp + "1" + "".join(B32[d] for d in data + chk)
+
+
+def ref_wif_text(secret, mainnet, compressed, suffix=None):
+    raw = bytes([0x80 if mainnet else 0xef]) + secret.to_bytes(32, "big") + \
+        ((b"\x01" if compressed else b"") if suffix is None else suffix)
+    return ref_b58enc(raw + h256(raw)[:4])
 
 
 def spk_bytes(ver, prog):
@@ -444,6 +487,173 @@ def p_wif_only_wif(sb):
     return None
 
 
+# ---- the accepted sets, decided by independent reference decoders (both directions, and HOW a text is rejected)
+
+SEG_NET = {"bc": "mainnet", "tb": "testnet", "bcrt": "regtest"}
+
+
+def ref_segdec(s):
+    """[network, version symbol, program] when s is in the accepted set of decode_bech32 as C09_decode_bech32_iff
+    states it (known prefix, separator '1', lower-case alphabet, bech32 constant for version symbol 0 and bech32m
+    otherwise, at most 4 padding bits, all zero, 2..40 program bytes), None otherwise; written from BIP173/BIP350"""
+    for hrp in ("bcrt", "bc", "tb"):
+        if s.startswith(hrp + "1"):
+            d = s[len(hrp) + 1:]
+            break
+    else:
+        return None
+    if len(d) < 7 or any(c not in B32 for c in d):
+        return None
+    data = [B32.index(c) for c in d]
+    if ref_polymod(ref_hrp(hrp) + data) != (1 if data[0] == 0 else 0x2bc830a3):
+        return None
+    body = data[1:-6]
+    pad = 5 * len(body) % 8
+    val = 0
+    for x in body:
+        val = val * 32 + x
+    nbytes = 5 * len(body) // 8
+    if pad > 4 or val & ((1 << pad) - 1) or not 2 <= nbytes <= 40:
+        return None
+    return [SEG_NET[hrp], data[0], (val >> pad).to_bytes(nbytes, "big")]
+
+
+def ref_parse_address(s):
+    """(template, hash) when s is the address of one of the five standard scriptPubKeys on some network, else None"""
+    raw = ref_b58dec(s)
+    if raw is not None and len(raw) == 25 and h256(raw[:21])[:4] == raw[21:]:
+        t = {0x00: 0, 0x6f: 0, 0x05: 1, 0xc4: 1}.get(raw[0])
+        return None if t is None else (t, raw[1:21])
+    d = ref_segdec(s)
+    if d is not None:
+        _, v, prog = d
+        if v == 0 and len(prog) in (20, 32):
+            return (2 if len(prog) == 20 else 3, prog)
+        if v == 1 and len(prog) == 32:
+            return (4, prog)
+    return None
+
+
+def ref_wif(s):
+    """[secret, network, compressed] when s is a WIF text, None otherwise"""
+    raw = ref_b58dec(s)
+    if raw is None or len(raw) < 4 or h256(raw[:-4])[:4] != raw[-4:]:
+        return None
+    p = raw[:-4]
+    if len(p) == 34 and p[33] == 1:
+        comp = True
+    elif len(p) == 33:
+        comp = False
+    else:
+        return None
+    if p[0] not in (0x80, 0xef):
+        return None
+    sec = int.from_bytes(p[1:33], "big")
+    if not 1 <= sec < N:
+        return None
+    return [sec, "mainnet" if p[0] == 0x80 else "testnet", comp]
+
+
+def _outcome(f, s):
+    """("value", v) | ("rejected", None) | ("crash", description): see CLEAN above"""
+    try:
+        r = f(s)
+    except CLEAN:
+        return "rejected", None
+    except Exception as e:  # noqa
+        if _is_timeout(e):
+            raise
+        if isinstance(e, IndexError) and s in DEGENERATE:
+            return "rejected", None
+        return "crash", f"raises {type(e).__name__} ({str(e)[:80]}) instead of rejecting the text with ValueError/RuntimeError"
+    if r is None:
+        return "crash", "returns None instead of raising"
+    return "value", r
+
+
+def _judge(name, s, kind, got, want, show=repr):
+    """want: the reference value or None (text must be rejected)"""
+    if kind == "crash":
+        return f"{name}({s!r}) {got}" + ("" if want is None else f"; the text is valid: {show(want)}")
+    if want is None:
+        return None if kind == "rejected" else f"{name} accepts {s!r}, which the reference decoder rejects: {show(got)}"
+    if kind == "rejected":
+        return f"{name} rejects the valid text {s!r} ({show(want)})"
+    return None if got == want else f"{name}({s!r}) = {show(got)}, reference {show(want)}"
+
+
+def p_text_iff(sb):
+    """ONE text through every decoder of the property: each accepts it exactly when the independent reference decoder
+    does, with the same result, and rejects it with the exception class the library uses for that (not by crashing
+    further down, not by returning None)"""
+    s = T(sb)
+    # Base58Check
+    raw = ref_b58dec(s)
+    want = raw[:-4] if raw is not None and len(raw) >= 4 and h256(raw[:-4])[:4] == raw[-4:] else None
+    k, got = _outcome(helper.raw_decode_base58, s)
+    d = _judge("raw_decode_base58", s, k, got, want)
+    if d:
+        return d
+    k, got = _outcome(helper.decode_base58, s)
+    d = _judge("decode_base58", s, k, got, None if want is None else want[1:])
+    if d:
+        return d
+    # segwit
+    k, got = _outcome(bech32.decode_bech32, s)
+    d = _judge("decode_bech32", s, k, list(got) if k == "value" and isinstance(got, (list, tuple)) else got, ref_segdec(s))
+    if d:
+        return d
+    # addresses: both parsers
+    ra = ref_parse_address(s)
+    want = None if ra is None else [SPK_CLS[ra[0]].__name__, spk_commands(*ra)]
+    for name, f in (("address_to_script_pubkey", script.address_to_script_pubkey),
+                    ("TxOut.to_address", lambda x: _spk_of(tx.TxOut.to_address(x, 5)))):
+        k, got = _outcome(f, s)
+        if k == "value":
+            got = [type(got).__name__, getattr(got, "commands", None)]
+        d = _judge(name, s, k, got, want)
+        if d:
+            return d
+    # WIF
+    k, got = _outcome(pecc.PrivateKey.parse, s)
+    if k == "value":
+        got = [getattr(got, "secret", None), getattr(got, "network", None), getattr(got, "compressed", None)]
+    return _judge("PrivateKey.parse", s, k, got, ref_wif(s))
+
+
+def _spk_of(txout):
+    if txout is None:
+        return None
+    if txout.amount != 5:
+        raise AssertionError("TxOut.to_address did not keep the amount")
+    return txout.script_pubkey
+
+
+def p_encode_refuses(what, a, net):
+    """the encoders refuse what they must refuse by raising ValueError/RuntimeError: an unknown network name for a
+    segwit address, a secret outside [1, N-1] for a key"""
+    if what == 0:
+        f, args, name = bech32.encode_bech32_checksum, (a, NETS[net]), "encode_bech32_checksum"
+        must = NETS[net] not in ("mainnet", "testnet", "signet", "regtest")
+    elif what == 1:
+        f, args, name = (lambda t, h, n: _spk(t, h).address(n)), (a[0], a[1], NETS[net]), "address"
+        must = a[0] >= 2 and net == 4
+    else:
+        f, args, name = pecc.PrivateKey, (a,), "PrivateKey"
+        must = not 1 <= a < N
+    try:
+        r = f(*args)
+    except CLEAN:
+        return None if must else f"{name}{args!r} raised for an argument inside the domain"
+    except Exception as e:  # noqa
+        if _is_timeout(e):
+            raise
+        return f"{name}{args!r} raises {type(e).__name__} instead of ValueError/RuntimeError"
+    if must:
+        return f"{name}{args!r} returned {r!r} for an argument it must refuse"
+    return None
+
+
 def h160(b):
     return hashlib.new("ripemd160", hashlib.sha256(b).digest()).digest()
 
@@ -496,6 +706,68 @@ def p_spk_bytes_rt(t, h, net):
     return None
 
 
+def p_ctor_refuses(t, kind):
+    """the scriptPubKey classes take the hash as bytes (P2TR: bytes or a curve point) and refuse anything else with
+    TypeError - they do not build a script (and later an address) from it"""
+    bad = [None, 5, "00" * (20 if t < 3 else 32), [0] * 20, bytearray(20 if t < 3 else 32), 0][kind % 6]
+    try:
+        obj = SPK_CLS[t](bad)
+    except TypeError:
+        return None
+    except Exception as e:  # noqa
+        if _is_timeout(e):
+            raise
+        return f"{SPK_CLS[t].__name__}({bad!r}) raises {type(e).__name__}, not TypeError"
+    try:
+        a = obj.address("mainnet")
+    except Exception as e:  # noqa
+        if _is_timeout(e):
+            raise
+        a = "address() raises " + type(e).__name__
+    return f"{SPK_CLS[t].__name__}({bad!r}) is accepted: commands {obj.commands!r}, address {a!r}"
+
+
+def len_prefix(n, form):
+    """compact-size length n in the minimal form (0) or padded to 3 / 5 / 9 bytes (1 / 2 / 3)"""
+    if form == 0:
+        return bytes([n]) if n < 0xfd else b"\xfd" + n.to_bytes(2, "little")
+    return [b"\xfd", b"\xfe", b"\xff"][form - 1] + n.to_bytes([2, 4, 8][form - 1], "little")
+
+
+def p_spk_stream(t, h, net, form, before, after):
+    """a standard scriptPubKey read from the MIDDLE of a stream (bytes before and after it, any compact-size form of
+    its length): ScriptPubKey.parse consumes exactly the script, builds the template's class, and its address is the
+    reference address"""
+    raw = ref_ser(spk_commands(t, h))
+    pre = len_prefix(len(raw), form)
+    st = BytesIO(before + pre + raw + after)
+    st.read(len(before))
+    obj = _quiet(script.ScriptPubKey.parse, st)
+    if st.tell() != len(before) + len(pre) + len(raw):
+        return f"ScriptPubKey.parse left the stream at {st.tell()}, the script ends at {len(before) + len(pre) + len(raw)}"
+    if type(obj) is not SPK_CLS[t] or obj.commands != spk_commands(t, h):
+        return f"ScriptPubKey.parse built {obj!r} for template {t}"
+    if obj.address(NETS[net]) != ref_address(t, h, net):
+        return f"address {obj.address(NETS[net])} differs from the reference {ref_address(t, h, net)}"
+    return None
+
+
+def p_p2tr_point(secret, net):
+    """P2TRScriptPubKey built from a curve point: the address is the bech32m address of the point's x coordinate"""
+    pt = pecc.PrivateKey(secret).point
+    x = pt.x.num.to_bytes(32, "big") if hasattr(pt.x, "num") else int(pt.x).to_bytes(32, "big")
+    spk = script.P2TRScriptPubKey(pt)
+    if spk.commands != [0x51, x]:
+        return f"P2TRScriptPubKey(point).commands = {spk.commands!r}"
+    a = spk.address(NETS[net])
+    if a != ref_address(4, x, net):
+        return f"address {a} differs from the reference {ref_address(4, x, net)}"
+    back = script.address_to_script_pubkey(a)
+    if type(back) is not script.P2TRScriptPubKey or back.commands != spk.commands:
+        return f"address_to_script_pubkey({a}) gives {back!r}"
+    return None
+
+
 # ---------------------------------------------------------------- histories: one object / one module, many calls
 # Every step of a session is compared with the stateless references above, so a result that depends on an EARLIER
 # call (a memo on a script or key object, a module-level cache keyed too coarsely, a value computed once in a
@@ -523,10 +795,15 @@ def ref_address(t, h, net):
 
 
 def _try(f, *a, **kw):
+    """ERR for a refusal (ValueError / RuntimeError); any other exception is a crash and compares unequal to ERR"""
     try:
         return f(*a, **kw)
-    except Exception:
+    except CLEAN:
         return ERR
+    except Exception as e:  # noqa
+        if _is_timeout(e):
+            raise
+        return "crashed with " + type(e).__name__
 
 
 def _sub(s, seg, pos, k):
@@ -679,7 +956,43 @@ PROPS = {"decode_encode": p_decode_encode, "parsers_only_addresses": p_parsers_o
          "b58_rt": p_b58_rt, "b58_accept_iff": p_b58_accept_iff, "segwit_rt": p_segwit_rt,
          "segwit_sub1": p_segwit_sub1, "segwit_sub2": p_segwit_sub2, "group32": p_group32,
          "spk_addr": p_spk_addr, "to_address": p_to_address, "addr_distinct": p_addr_distinct, "wif_rt": p_wif_rt,
-         "history": p_history}
+         "history": p_history, "text_iff": p_text_iff, "encode_refuses": p_encode_refuses,
+         "spk_stream": p_spk_stream, "p2tr_point": p_p2tr_point, "ctor_refuses": p_ctor_refuses}
+
+
+# ---- per-case time limit.  Every case of this property takes milliseconds (a key: ~0.1 s).  A non-terminating loop in
+# the library (e.g. the digit loop of raw_decode_base58) must surface within seconds and must not be swallowed by an
+# `except Exception` of a predicate that is looking for a rejection: the alarm raises a BaseException, which is turned
+# into the engine's ImplTimeout (counted there; repeated timeouts end the run with the violation found so far).
+CASE_LIMIT_S = 20
+
+
+class _CaseTimeout(BaseException):
+    pass
+
+
+def _on_alarm(signum, frame):
+    raise _CaseTimeout()
+
+
+def _limited(f):
+    import signal
+
+    def g(*a):
+        signal.signal(signal.SIGALRM, _on_alarm)
+        signal.setitimer(signal.ITIMER_REAL, CASE_LIMIT_S)
+        try:
+            return f(*a)
+        except _CaseTimeout:
+            from vp.core import ImplTimeout
+            raise ImplTimeout() from None
+        finally:
+            signal.setitimer(signal.ITIMER_REAL, 0)
+    return g
+
+
+IMPL = {k: _limited(v) for k, v in IMPL.items()}
+PROPS = {k: _limited(v) for k, v in PROPS.items()}
 
 
 # ---------------------------------------------------------------- generators
@@ -931,6 +1244,7 @@ def converse_cases(ctx, strings, addrs):
         yield ("corr", "address_to_spk_bytes", [b])
         yield ("prop", "decode_encode", [b])
         yield ("prop", "parsers_only_addresses", [b])
+        yield ("prop", "text_iff", [b])
     cases = r.sample(addrs, ctx.n(40, 600))
     cases += [(v, ctx.rbytes(ln), net, None) for v in (0, 1) for ln in (20, 32, 21, 31, 33, 18) for net in (0, 1, 3)]
     for (ver, prog, net, _) in cases:
@@ -939,6 +1253,7 @@ def converse_cases(ctx, strings, addrs):
             b = a.encode()
             yield ("corr", "decode_bech32", [b])
             yield ("prop", "decode_encode", [b])
+            yield ("prop", "text_iff", [b])
             if ver in (0, 1):
                 yield ("corr", "address_to_script_pubkey", [b])
                 yield ("corr", "to_address", [b])
@@ -955,6 +1270,7 @@ def converse_cases(ctx, strings, addrs):
         yield ("corr", "address_to_spk_bytes", [a])
         yield ("prop", "decode_encode", [a])
         yield ("prop", "parsers_only_addresses", [a])
+        yield ("prop", "text_iff", [a])
     # WIF-shaped texts: payload lengths around 33/34
     for _ in range(ctx.n(40, 600)):
         pre = r.choice([0x80, 0xef, 0x80, 0xef, 0x81])
@@ -968,6 +1284,7 @@ def converse_cases(ctx, strings, addrs):
         yield ("corr", "wif_parse", [w])
         yield ("prop", "decode_encode", [w])
         yield ("prop", "wif_only_wif", [w])
+        yield ("prop", "text_iff", [w])
 
 
 OPS = [0, 0x51, 0x52, 0x53, 0x60, 0x76, 0xa9, 0x87, 0x88, 0xac, 0xae, 0xb1, 0x6a, 0x4f, 0xff]
@@ -1027,6 +1344,14 @@ def entry_point_cases(ctx):
                     p = r.randrange(len(a))
                     yield ("corr", "address_to_spk_bytes", [a[:p] + bytes([r.choice(B32.encode() if t >= 2 else B58.encode())]) + a[p + 1:]])
                 if i == 0:
+                    # the script inside a longer stream, its length in every compact-size form
+                    for form in range(4):
+                        ctx.label("entry/spk-bytes-in-stream")
+                        tail = ctx.rbytes(r.choice([1, 3, 40]))
+                        yield ("corr", "spk_bytes_address", [len_prefix(len(b) - 1, form) + b[1:] + tail, net])
+                        if net < 4:
+                            yield ("prop", "spk_stream", [t, h, net, form, ctx.rbytes(r.choice([0, 1, 9])), tail])
+                if i == 0:
                     # near misses: not one of the templates -> plain ScriptPubKey, which has no address()
                     hpos = SPK_HPOS[t]
                     miss = []
@@ -1051,6 +1376,94 @@ def entry_point_cases(ctx):
                     yield ("corr", "spk_bytes_address", [bytes([max(0, len(b) - 3)]) + b[1:], net])  # ... too short
     for s in (b"", b"\x00", b"\x01\x51", b"\xfd\x00", b"\xff"):
         yield ("corr", "spk_bytes_address", [s, 0])
+    for t in range(5):
+        for kind in range(6):
+            ctx.label("entry/constructor-non-bytes")
+            yield ("prop", "ctor_refuses", [t, kind])
+    for k in (1, 2, N - 1, r.randrange(1, N)):
+        ctx.label("entry/p2tr-from-point")
+        yield ("prop", "p2tr_point", [k, r.randrange(4)])
+
+
+def b58c(raw):
+    return ref_b58enc(raw + h256(raw)[:4]).encode()
+
+
+def rejecting_branch_cases(ctx):
+    """one constructed text for EVERY rejecting branch of the decoders (valid checksum throughout, so that the text
+    reaches the branch), on both sides of each comparison; text_iff fails when the text is accepted, when None comes
+    back, or when the branch is left by anything but ValueError/RuntimeError"""
+    r = ctx.rng
+
+    def text(label, b, corr=()):
+        ctx.label("reject/" + label)
+        for fn in corr:
+            yield ("corr", fn, [b])
+        yield ("prop", "text_iff", [b])
+
+    seg_corr = ("decode_bech32", "address_to_script_pubkey", "to_address")
+    # ---- decode_bech32: unknown human-readable part, everything else valid (standard program shapes)
+    for hrp in ["ltc", "bcr", "b", "t", "c", "BC", "TB", "Bc", "tc", "bt", "bb", "tbx", "bcx", "bcrtx", "bcrt1", "crt",
+                "bc1", "tb1", "signet", "sb", "", "bc ", " bc", "\xe9"]:
+        for ver, ln in ((0, 20), (0, 32), (1, 32), (r.randrange(2, 17), r.randrange(2, 41))):
+            a = ref_segwit(hrp, ver, ctx.rbytes(ln)).encode("latin-1")
+            yield from text("segwit-unknown-hrp", a, seg_corr)
+    # a known prefix followed by the checksum of ANOTHER known prefix, and the converse
+    for h1 in ("bc", "tb", "bcrt"):
+        for h2 in ("bc", "tb", "bcrt"):
+            if h1 != h2:
+                a = ref_segwit(h2, r.choice([0, 1]), ctx.rbytes(32))
+                yield from text("segwit-prefix-swapped", (h1 + a[len(h2):]).encode(), seg_corr)
+    # ---- the address parsers: every first-character class, valid checksum, 21-byte payload; program lengths
+    #      around 20 / 32 for versions 0 / 1 / 2+ (the branches that say "not a valid bech32 address")
+    seen = set()
+    for ver in list(range(256)):
+        a = b58c(bytes([ver]) + ctx.rbytes(20))
+        if ver in (0, 5, 0x6f, 0xc4) or a[:1] not in seen or r.random() < 0.1:
+            seen.add(a[:1])
+            yield from text("base58-first-char-%s" % ("std" if a[:1] in b"123mn" else "other"), a,
+                            ("address_to_script_pubkey", "to_address", "address_to_spk_bytes"))
+    for first, vers in ((b"1", (0,)), (b"3", (5,)), (b"2", (0xc4,)), (b"m", (0x6f,)), (b"n", (0x6f,))):
+        # right version byte, wrong hash length; right first character, wrong version byte
+        for ln in (0, 1, 19, 21, 32):
+            for _ in range(40):
+                a = b58c(bytes([vers[0]]) + ctx.rbytes(ln))
+                if a[:1] in b"123mn":
+                    break
+            yield from text("base58-hash-length", a, ("address_to_script_pubkey", "to_address"))
+    for ver in (0, 1, 2, 16):
+        for ln in (2, 19, 20, 21, 31, 32, 33, 40):
+            for net in (0, 1, 3):
+                a = ref_segwit(HRP[net], ver, ctx.rbytes(ln)).encode()
+                yield from text("segwit-v%s-len-%s" % (min(ver, 2), "std" if ln in (20, 32) else "other"), a, seg_corr)
+    # ---- PrivateKey.parse: each branch
+    for pre in (0x80, 0xef):
+        sec = r.randrange(1, N).to_bytes(32, "big")
+        for last in (0x00, 0x02, 0x81, 0xff, 0x01):
+            yield from text("wif-34-last-byte-%s" % ("01" if last == 1 else "other"), b58c(bytes([pre]) + sec + bytes([last])), ("wif_parse",))
+        for total in (1, 2, 32, 35, 36, 65):            # whole payload: neither 33 nor 34 bytes
+            for tail in (None, b"\x01"):                 # ... also when it ends in the compression marker
+                raw = bytes([pre]) + ctx.rbytes(total - 1)
+                if tail and total > 1:
+                    raw = raw[:-1] + tail
+                yield from text("wif-payload-length-%d" % total, b58c(raw), ("wif_parse",))
+        yield from text("wif-payload-length-0", b58c(b""), ("wif_parse",))
+        for k in (0, N, N + 1, 2 ** 256 - 1, N - 1, 1):
+            for suffix in (b"", b"\x01"):
+                yield from text("wif-secret-%s" % ("in-range" if 1 <= k < N else "out-of-range"),
+                                b58c(bytes([pre]) + k.to_bytes(32, "big") + suffix), ("wif_parse",))
+    for pre in (0x7f, 0x81, 0xee, 0xf0, 0x00, 0x08, 0xfe, 0xff, 0xb0, 0x6f):
+        for suffix in (b"", b"\x01"):
+            yield from text("wif-foreign-prefix", b58c(bytes([pre]) + r.randrange(1, N).to_bytes(32, "big") + suffix), ("wif_parse",))
+    # ---- encoders that must refuse
+    for net in range(5):
+        for ver, ln in ((0, 20), (0, 32), (1, 32)):
+            ctx.label("refuse/network")
+            yield ("prop", "encode_refuses", [0, spk_bytes(ver, ctx.rbytes(ln)), net])
+            yield ("prop", "encode_refuses", [1, [2 + [20, 32].index(ln) + ver, ctx.rbytes(ln)], net])
+    for k in (0, N, N + 1, 2 ** 256, -1, 1, N - 1):
+        ctx.label("refuse/secret")
+        yield ("prop", "encode_refuses", [2, k, 0])
 
 
 def generate(ctx):
@@ -1069,6 +1482,8 @@ def generate(ctx):
             yield ("corr", "raw_decode_base58", [s])
             yield ("corr", "decode_base58", [s])
             yield ("prop", "b58_accept_iff", [s])
+            if n in (0, 1, 20, 21, 32, 33, 34, 82) or r.random() < 0.15:
+                yield ("prop", "text_iff", [s])
     # strings decoding to fewer than 4 bytes, leading-'1' handling, foreign characters
     small = [b"", b"1", b"11", b"111", b"1111", b"11111", b"2", b"12", b"21", b"211", b"1121", b"z", b"zz", b"1z1z1",
              b"3QJmnh", b"11113QJmnh", ref_b58enc(h256(b"")[:4]).encode(), b"1" + ref_b58enc(b"\x00" + h256(b"\x00")[:4]).encode()]
@@ -1076,6 +1491,7 @@ def generate(ctx):
         yield ("corr", "raw_decode_base58", [s])
         yield ("corr", "decode_base58", [s])
         yield ("prop", "b58_accept_iff", [s])
+        yield ("prop", "text_iff", [s])
     for s in r.sample(strings, ctx.n(25, 400)):
         # every single substitution at a sampled position set / every position in thorough runs
         pos_list = range(len(s)) if ctx.tier != "quick" else r.sample(range(len(s)), min(len(s), 6))
@@ -1088,27 +1504,35 @@ def generate(ctx):
                 yield ("prop", "b58_accept_iff", [bad])
                 if r.random() < 0.1:
                     yield ("corr", "raw_decode_base58", [bad])
+                    yield ("prop", "text_iff", [bad])
         for c in "0OIl +/\xff\x00":
             p = r.randrange(len(s))
             bad = s[:p] + c.encode("latin-1") + s[p + 1:]
             ctx.label("b58/foreign-character")
             yield ("corr", "raw_decode_base58", [bad])
             yield ("prop", "b58_accept_iff", [bad])
+            yield ("prop", "text_iff", [bad])
         p = r.randrange(len(s) + 1)
         yield ("corr", "raw_decode_base58", [s[:p] + b"1" + s[p:]])     # inserted '1'
         yield ("corr", "raw_decode_base58", [s[:p]])                     # truncated
         yield ("prop", "b58_accept_iff", [s[:p] + b"1" + s[p:]])
+        yield ("prop", "text_iff", [s[:p] + b"1" + s[p:]])
+        yield ("prop", "text_iff", [s[:p]])
     for _ in range(ctx.n(150, 4000)):
         s = "".join(r.choice(B58[:3] if r.random() < 0.3 else B58) for _ in range(r.randrange(0, 12))).encode()
         yield ("corr", "raw_decode_base58", [s])
         yield ("prop", "b58_accept_iff", [s])
+        if r.random() < 0.2:
+            yield ("prop", "text_iff", [s])
     # short strings with a VALID checksum found by construction: payloads of 0..3 bytes
     for n in range(0, 4):
         for _ in range(3):
             b = ctx.rbytes(n)
             s = ref_b58enc(b + h256(b)[:4]).encode()
             yield ("corr", "raw_decode_base58", [s])
+            yield ("corr", "decode_base58", [s])
             yield ("prop", "b58_accept_iff", [s])
+            yield ("prop", "text_iff", [s])
     # ---------------- polymod and checksum primitives
     for _ in range(ctx.n(100, 3000)):
         vals = [r.randrange(32) for _ in range(r.randrange(0, 100))]
@@ -1120,7 +1544,8 @@ def generate(ctx):
         m = r.randrange(2)
         data = [r.randrange(32) for _ in range(r.randrange(0, 70))]
         yield ("corr", "create_checksum", [m, hrp, data])
-        chk = IMPL["create_checksum"](m, hrp, data)
+        pm = ref_polymod(ref_hrp(T(hrp)) + data + [0] * 6) ^ (0x2bc830a3 if m else 1)      # reference, not the library
+        chk = [(pm >> 5 * (5 - i)) & 31 for i in range(6)]
         yield ("corr", "verify_checksum", [m, hrp, data + chk])
         yield ("corr", "verify_checksum", [1 - m, hrp, data + chk])
         if data:
@@ -1146,6 +1571,8 @@ def generate(ctx):
                 yield ("prop", "segwit_rt", [ver, prog, net])
                 a = ref_segwit(HRP[net], ver, prog)
                 yield ("corr", "decode_bech32", [a.encode()])
+                if ln in (2, 20, 32, 40) or r.random() < 0.05:
+                    yield ("prop", "text_iff", [a.encode()])
                 addrs.append((ver, prog, net, a))
     # outside the domain: what the codec does with other inputs (model = implementation)
     for _ in range(ctx.n(150, 3000)):
@@ -1163,6 +1590,7 @@ def generate(ctx):
         a = ref_segwit(hrp, ver, ctx.rbytes(ln))
         ctx.label("decode/valid-checksum-odd-shape")
         yield ("corr", "decode_bech32", [a.encode()])
+        yield ("prop", "text_iff", [a.encode()])
         k = r.random()
         if k < 0.15:
             a = a.upper()
@@ -1179,8 +1607,12 @@ def generate(ctx):
         elif k < 0.7 and hrp == "bcrt":
             a = a[:4] + r.choice("qx/2") + a[5:]       # separator of a regtest address is never looked at
         yield ("corr", "decode_bech32", [a.encode("latin-1")])
+        yield ("prop", "text_iff", [a.encode("latin-1")])
     for _ in range(ctx.n(100, 2000)):
-        yield ("corr", "decode_bech32", [bytes(r.choice(b"bc1tqpzry9x8gf2rt") for _ in range(r.randrange(0, 30)))])
+        a = bytes(r.choice(b"bc1tqpzry9x8gf2rt") for _ in range(r.randrange(0, 30)))
+        yield ("corr", "decode_bech32", [a])
+        yield ("prop", "text_iff", [a])
+    yield from rejecting_branch_cases(ctx)
     # ---------------- error detection: exhaustive single substitutions, sampled position pairs x all symbol pairs
     sample = r.sample(addrs, ctx.n(10, 250))
     sample += [x for x in addrs if x[1] and x[0] in (0, 1) and len(x[1]) in (20, 32)][: ctx.n(6, 60)]
@@ -1194,6 +1626,8 @@ def generate(ctx):
             c = r.choice(B32)
             if c != a[start + pos]:
                 yield ("corr", "decode_bech32", [(a[:start + pos] + c + a[start + pos + 1:]).encode()])
+                if pos % 4 == 0:
+                    yield ("prop", "text_iff", [(a[:start + pos] + c + a[start + pos + 1:]).encode()])
         pairs = [(0, r.randrange(1, n)), (r.randrange(n - 6, n), r.randrange(0, n - 6))]
         pairs += [tuple(r.sample(range(n), 2)) for _ in range(ctx.n(4, 40))]
         for (p1, p2) in pairs:
@@ -1217,7 +1651,7 @@ def generate(ctx):
                 yield ("corr", "address", [t, h, net])
                 yield ("prop", "spk_addr", [t, h, net])
                 yield ("prop", "to_address", [t, h, net])
-                a = i_address(t, h, net).encode()
+                a = ref_address(t, h, net).encode()            # built by the reference encoder, not by the library
                 yield ("corr", "address_to_script_pubkey", [a])
                 yield ("corr", "to_address", [a])
                 # corrupted address
@@ -1225,6 +1659,8 @@ def generate(ctx):
                 bad = a[:p] + bytes([r.choice(B32.encode() if t >= 2 else B58.encode())]) + a[p + 1:]
                 yield ("corr", "address_to_script_pubkey", [bad])
                 yield ("corr", "to_address", [bad])
+                yield ("prop", "text_iff", [ref_address(t, h, net).encode()])
+                yield ("prop", "text_iff", [bad])
         yield ("prop", "addr_distinct", [ctx.rbytes(32), ctx.rbytes(32), net])
     # non-standard hash lengths / other networks / odd strings: model = implementation
     for _ in range(ctx.n(80, 2000)):
@@ -1232,21 +1668,28 @@ def generate(ctx):
         h = ctx.rbytes(r.choice([0, 1, 19, 20, 21, 31, 32, 33, 40, 75, 76]))
         net = r.randrange(5)
         yield ("corr", "address", [t, h, net])
-        try:
-            a = i_address(t, h, net).encode()
-        except Exception:
+        if t >= 2:
+            yield ("prop", "encode_refuses", [1, [t, h], net])
+        a = ref_address(t, h, net) if (t < 2 or (net in HRP and 2 <= len(h) <= 40)) else None
+        if a is None:
             continue
+        a = a.encode()
         yield ("corr", "address_to_script_pubkey", [a])
         yield ("corr", "to_address", [a])
-    for s in [b"", b"1", b"3", b"m", b"x", b"bc1", b"bc1q", b"bc1p", b"tb1q", b"bcrt1q", b"bcrt1p", b"bc1z", b"BC1Q"]:
+        yield ("prop", "text_iff", [a])
+    for s in [b"", b"1", b"3", b"m", b"x", b"bc1", b"bc1q", b"bc1p", b"tb1q", b"bcrt1q", b"bcrt1p", b"bc1z", b"BC1Q",
+              b"tb1", b"bcrt1", b"bcrt", b"bc", b"2", b"n", b"bc1qqqqqqq", b"tb1pqqqqqq", b"1111", b"bc11", b"tb1q1"]:
         yield ("corr", "address_to_script_pubkey", [s])
         yield ("corr", "to_address", [s])
+        yield ("corr", "decode_bech32", [s])
+        yield ("prop", "text_iff", [s])
     for ver in (0, 1, 2, 16):
         for ln in (20, 21, 32, 33):
             for hrp in ("bc", "tb", "bcrt"):
                 a = ref_segwit(hrp, ver, ctx.rbytes(ln)).encode()
                 yield ("corr", "address_to_script_pubkey", [a])
                 yield ("corr", "to_address", [a])
+                yield ("prop", "text_iff", [a])
     # ---------------- WIF
     secrets = [0, 1, 2, 255, 256, N - 1, N, N + 1, 2 ** 255, 2 ** 256 - 1, 2 ** 256, -1, 2 ** 248 - 1, 2 ** 248]
     secrets += [r.getrandbits(r.choice([8, 64, 200, 248, 255, 256])) for _ in range(ctx.n(40, 1500))]
@@ -1257,10 +1700,13 @@ def generate(ctx):
                 yield ("corr", "wif_encode", [sec, mainnet, comp])
                 yield ("prop", "wif_rt", [sec, mainnet, comp])
                 if 1 <= sec < N and r.random() < 0.5:
-                    w = i_wif_encode(sec, mainnet, comp).encode()
+                    w = ref_wif_text(sec, mainnet, comp).encode()
                     yield ("corr", "wif_parse", [w])
                     p = r.randrange(len(w))
-                    yield ("corr", "wif_parse", [w[:p] + bytes([r.choice(B58.encode())]) + w[p + 1:]])
+                    bad = w[:p] + bytes([r.choice(B58.encode())]) + w[p + 1:]
+                    yield ("corr", "wif_parse", [bad])
+                    yield ("prop", "text_iff", [w])
+                    yield ("prop", "text_iff", [bad])
     # payloads of other shapes with a valid checksum
     for _ in range(ctx.n(60, 1500)):
         pre = r.choice([0x80, 0xef, 0x00, 0x81, 0xee, r.randrange(256)])
@@ -1273,6 +1719,7 @@ def generate(ctx):
         raw = (bytes([pre]) + body) if r.random() < 0.95 else b""
         ctx.label("wif/odd-payload")
         yield ("corr", "wif_parse", [ref_b58enc(raw + h256(raw)[:4]).encode()])
+        yield ("prop", "text_iff", [ref_b58enc(raw + h256(raw)[:4]).encode()])
     # ---------------- converse direction (decode then encode), non-canonical texts, other entry points
     yield from converse_cases(ctx, strings, addrs)
     yield from entry_point_cases(ctx)
